@@ -308,13 +308,13 @@ func genOpts(i int) gen.Opts {
 	o := gen.Opts{Addenda: true}
 	switch i % 7 {
 	case 1:
-		o.Returns, o.NOC = true, true
+		o.Returns, o.NOC, o.ADVReturns = true, true, true
 	case 2:
 		o.IAT = true
 	case 3:
 		o.NonASCII = true
 	case 4:
-		o.NonASCII, o.Returns, o.NOC, o.IAT = true, true, true, true
+		o.NonASCII, o.Returns, o.NOC, o.IAT, o.ADVReturns = true, true, true, true, true
 	case 5:
 		o.Offset = true
 		o.MaxBatches, o.MaxEntries = 6, 9
